@@ -413,7 +413,7 @@ def run_server(ctx, plan, P, skip_late):
             if rec['ndisc']:
                 fail('C12/stream/disconnect-twice', 'second disconnect event for socket #%d' % sid)
             rec['ndisc'] = 1
-            if both_rw.get(sid) is not None and S.iter - both_rw[sid] <= 1:
+            if both_rw.get(sid) is not None and S.iter - both_rw[sid] <= 2:       # round k reports both, k+1 handles them, k+2 dispatches the disconnect
                 ctx.stat('readable-and-writable-round-ends-connection')
             check_reads(rec, 'at its disconnect')
             c = rec['conn']
@@ -894,7 +894,7 @@ def _run(ctx):
         if r['S'].failed:
             break
     failed = [r for r in results if r['S'].failed]
-    settled = all(a[-1] == 0 for a in plan['acts'])
+    settled = all(a[-1] == 0 and a[0] not in ('answer_close_talk', 'write_peer_gone') for a in plan['acts'])     # (compound actions are races by construction)
     if not failed and len(results) > 1 and settled and not any(r['fatal'] for r in results):
         compare(ctx, results)
     if ctx.keep_trace:
